@@ -13,10 +13,13 @@ C14, growth round 6.
    steps none of which is listed (by name) or an instance of a listed type.  A listed name is found
    under NO path, however deep and whether or not the objects above carry that name themselves; a path
    none of whose steps is listed is untouched by the name list.
+   `loaded_name_absent_every_level` carries the absence statement through save and load (`canon`), end to end.
 3. **`Ptychography.save` inside histories** (`ptycho_history`): whatever calls came before (e.g. a save of
    the same live object with the SAME caller list and the other `save_raw_data`), a later load returns
    the graph stripped by exactly the caller's entries of THAT call, plus `_dset`/`dset` iff
    `save_raw_data` was false in THAT call.
+4. **attrs classes** (`Model/SerializeAttrsExt.lean`): only declared fields are items of the save loop; the skip filter
+   commutes with the field selection at every level (`strip_view_comm`), hence `skip_general_attrs`.
 -/
 namespace QuantemModel.Props.C14
 open QuantemModel.Serialize QuantemModel.SerializeSkip
@@ -311,5 +314,91 @@ example : viewA ciAT (stripG isInstanceX ["raw"] [] atree) =
     .obj "AT" [("count", .scalar (.int 3)), ("child", .obj "SB" [("deep", .obj "AT" [("count", .scalar (.bool true)), ("child", .scalar .none)])])] := by rfl
 
 end Growth6
+
+section Growth6b
+
+/-! ### 5. the path statements carried through save and load (`canon`) -/
+
+theorem mem_canonKvs : ∀ (attrs : List (String × Val)) (k : String) (n : Ns) (c' : Val),
+    (k, n, c') ∈ canonKvs attrs → ∃ c, (k, c) ∈ attrs ∧ c' = canon c
+  | [], k, n, c', h => by simp [canonKvs] at h
+  | (k0, v0) :: rest, k, n, c', h => by
+      simp only [canonKvs, List.mem_cons] at h
+      rcases h with h | h
+      · simp only [Prod.mk.injEq] at h
+        exact ⟨v0, by simp [h.1], h.2.2⟩
+      · obtain ⟨c, hc, e⟩ := mem_canonKvs rest k n c' h
+        exact ⟨c, List.mem_cons_of_mem _ hc, e⟩
+
+theorem mem_reorder (xs : List (String × Ns × Val)) (k : String) (c : Val) (h : (k, c) ∈ reorder xs) :
+    ∃ n, (k, n, c) ∈ xs := by
+  simp only [reorder, List.mem_append, List.mem_map, List.mem_filter] at h
+  rcases h with (⟨x, hx, e⟩ | ⟨x, hx, e⟩) | ⟨x, hx, e⟩ <;>
+  · simp only [Prod.mk.injEq] at e
+    exact ⟨x.2.1, by rw [← e.1, ← e.2]; exact hx.1⟩
+
+/-- every child the loaded (canonical) object has under `k` is the canonical form of a child of the original -/
+theorem childrenAt_canon (v : Val) (k : String) (c' : Val) (h : c' ∈ childrenAt (canon v) k) :
+    ∃ c, c ∈ childrenAt v k ∧ c' = canon c := by
+  cases v with
+  | obj cls attrs =>
+      simp only [canon, childrenAt, List.mem_map, List.mem_filter] at h
+      obtain ⟨kv, ⟨hm, hk⟩, e⟩ := h
+      have hk' : kv.1 = k := by simpa using hk
+      obtain ⟨n, hn⟩ := mem_reorder (canonKvs attrs) kv.1 kv.2 hm
+      obtain ⟨c, hc, ec⟩ := mem_canonKvs attrs kv.1 n kv.2 hn
+      refine ⟨c, ?_, by rw [← e, ec]⟩
+      simp only [childrenAt, List.mem_map, List.mem_filter]
+      exact ⟨(kv.1, c), ⟨hc, by simp [hk']⟩, rfl⟩
+  | list xs => simp only [canon] at h; split at h <;> simp [childrenAt] at h
+  | tuple xs => simp only [canon] at h; split at h <;> simp [childrenAt] at h
+  | set xs => simp only [canon] at h; split at h <;> simp [childrenAt] at h
+  | _ => simp [canon, childrenAt] at h
+
+/-- whatever the canonical (loaded) form holds under a path is the canonical form of something the graph holds there -/
+theorem atPath_canon : ∀ (p : List String) (v w : Val), w ∈ atPath p (canon v) → ∃ u, u ∈ atPath p v ∧ w = canon u
+  | [], v, w, h => by
+      simp only [atPath, List.mem_singleton] at h
+      exact ⟨v, by simp [atPath], h⟩
+  | k :: ks, v, w, h => by
+      simp only [atPath, List.mem_flatMap] at h
+      obtain ⟨c', hc', hw⟩ := h
+      obtain ⟨c, hc, e⟩ := childrenAt_canon v k c' hc'
+      subst e
+      obtain ⟨u, hu, eu⟩ := atPath_canon ks c w hw
+      exact ⟨u, by simp only [atPath, List.mem_flatMap]; exact ⟨c, hc, hu⟩, eu⟩
+
+/-- **end to end: a name listed at save time, at load time or both is found under NO attribute path of the
+loaded object** — at every depth, whether or not the objects above carry that name, next to any type list,
+for every instance relation -/
+theorem loaded_name_absent_every_level (inst : Val → String → Bool) (hI : InstOk inst) (ns1 ns2 ts : List String)
+    (cls : String) (attrs : List (String × Val))
+    (hw : wfA (.obj cls attrs) = true) (ha : attrNested (.obj cls attrs) = true)
+    (w : Val) (hload : loadX ⟨ns2, []⟩ (saveG inst ⟨ns1, ts⟩ (.obj cls attrs)) = .ok w)
+    (k : String) (hk : k ∈ ns1 ∨ k ∈ ns2) (p : List String) :
+    atPath (p ++ [k]) w = [] := by
+  rw [skip_general inst hI ns1 ns2 ts cls attrs hw ha] at hload
+  have e : w = canon (stripG inst (ns2 ++ ns1) ts (.obj cls attrs)) := by
+    injection hload with h; exact h.symm
+  subst e
+  have hk' : k ∈ ns2 ++ ns1 := by simp [hk.symm]
+  apply List.eq_nil_iff_forall_not_mem.2
+  intro x hx
+  obtain ⟨u, hu, _⟩ := atPath_canon (p ++ [k]) _ x hx
+  rw [strip_name_absent_every_level inst (ns2 ++ ns1) ts k hk' p] at hu
+  simp at hu
+
+/-- strict-subclass instances are instances: `int` takes a bool, `float` takes an np.float64, `Tensor` takes a Parameter -/
+theorem strict_subclass_instances (b : Bool) (s : Scalar) (c : String) (t : Nat) :
+    isInstance (.scalar (.bool b)) "int" = true ∧ isInstance (.npScalar "float64" s) "float" = true ∧
+    isInstanceX (.scalar (.bool b)) "int" = true ∧ isInstanceX (.npScalar "float64" s) "float" = true ∧
+    isInstanceX (.torch .parameter c t) "Tensor" = true := by
+  simp [isInstance, isInstanceX]
+
+example : loadX ⟨["raw"], []⟩ (saveG isInstanceX ⟨[], ["int"]⟩ (.obj "SA" [("a", .obj "SB" [("raw", .scalar (.int 1)), ("x", .scalar (.str "s"))])])) =
+    .ok (.obj "SA" [("a", .obj "SB" [("x", .scalar (.str "s"))])]) := by
+  rw [skip_general isInstanceX instOk_isInstanceX _ _ _ _ _ (by decide) (by decide)]; rfl
+
+end Growth6b
 
 end QuantemModel.Props.C14
